@@ -1082,3 +1082,40 @@ def follow_const_bool(body, bb, limit=4):
                 continue
         return cur
     return cur
+
+
+def with_helpers(body, keep=(), depth=2):
+    """`body` with its crate-local private helper functions inlined (see core.inline_helpers): a private free function
+    or inherent method that is not one of the rule's own anchors (`keep`: labels or ids) is treated as part of its
+    caller, so that `extract function` refactors do not move code out of a rule's sight"""
+    from .core import inline_helpers
+    if body is None:
+        return None
+    facts = body.facts
+    keep = set(keep)
+
+    def is_helper(cb):
+        if cb.id in keep or fn_label(cb) in keep or short_fn(fn_label(cb)) in keep:
+            return False
+        if cb.j.get('impl_trait'):
+            return False
+        return facts.fns.get(cb.id, {}).get('vis', 'pub') != 'pub'
+    return inline_helpers(body, is_helper, depth=depth)
+
+
+def mentions_field(body, field, of=None):
+    """some place in the (live, non-cleanup) code of body projects through the field"""
+    def walk(x):
+        if isinstance(x, dict):
+            if x.get('f') == field and (of is None or x.get('of') == of):
+                return True
+            return any(walk(v) for v in x.values())
+        if isinstance(x, list):
+            return any(walk(v) for v in x)
+        return False
+    for bb in body.live_blocks():
+        if body.is_cleanup(bb):
+            continue
+        if walk(body.stmts(bb)) or walk(body.term(bb)):
+            return True
+    return False
